@@ -156,6 +156,17 @@ Proof. intros (_ & _ & _ & _ & _ & _ & Hv & Hs). split.
   - destruct (sy_stage y); try exact I. apply (verify_iff K) in Hs. apply Hs. Qed.
 
 
+(** any number of refused replies, of any kind, leaves the customer exactly where it was - so the honest reply that follows is
+    treated as if nothing had happened *)
+Theorem refused_replies_do_not_matter (pk : pkey K) evs : forall (st : stage),
+  Forall (fun ev => snd (step pk st ev) = ORefused) evs ->
+  fold_left (fun s ev => fst (step pk s ev)) evs st = st.
+Proof. induction evs as [|ev evs IH]; intros st HF; cbn [fold_left]; [reflexivity|].
+  inversion HF as [|x l H1 H2]; subst.
+  assert (E : fst (step pk st ev) = st).
+  { destruct (step pk st ev) as [st' o] eqn:S. cbn [snd fst] in *. subst o. now apply (refused_reply_inert pk st st' ev). }
+  rewrite E. now apply IH. Qed.
+
 (** ** revocation: the state a close would use changes only in the step that discloses its lock, and disclosed locks stay
     disclosed - so every closing message made for a state that has since been superseded carries a disclosed lock (the
     merchant can refute it), while the current one never does ([close_accepted]) *)
